@@ -39,10 +39,22 @@ CHECKS = {
          "exhaustive enumeration of argument domains for every built-in of the default runtime (table checked against the runtime's generated documentation at run time) through compiled scripts and direct Rust calls against std/inetnum references",
          "Every built-in (77 built-ins, 117 surface forms; the list is read from the runtime so a new built-in without a reference is a machinery error) on the full cross product of its domains: all strings of <= 3 symbols (thorough 5) over a multi-byte alphabet incl. CR/LF forms, every index 0..=len+1 plus 2^32/2^63/u64::MAX, all 8/16-bit integers and all 1.1 M chars for to_string, float edge sets, IPv4/IPv6/prefix sets, all StringBuf push sequences <= 3: the value through the compiled script (and through the public Rust method) equals the std / inetnum reference given by the documentation.",
          "The documentation defines the reference; `lines().slice(len, len)` treated as unspecified; List.* belongs to C15."),
+ "C19": ("4/C19",
+         "exhaustive enumeration of test-block placements x outcome vectors (library API) and of (sub-command, script kind) pairs (the roto binary built from the tree under test, run as a subprocess)",
+         "Part A: four module trees, k <= 3 test blocks (k = 4 reduced; thorough k <= 6) with ALL placements and ALL 2^k accept/reject vectors in nine naming/outcome flavours (sorted vs source order, cross-module and in-module name collisions, same-named functions and filtermaps), each package compiled twice and run_tests called twice: Ok iff all accept, every block's mark logged exactly once per run in the same order, get_function never returns a test, a script cannot call a test (180 caller cases). Part B: all 8 sub-command forms x 20 script kinds = 160 launches of the roto binary: exit status and printed marks as the statement demands.",
+         "NoCtx packages only; any deterministic test order is accepted."),
  "C20": ("4/C20",
          "differential bounded-exhaustive enumeration: each generated program is lowered once (hook H4), evaluated by the crate's IR evaluator and JIT-compiled from the same IR; results and host-call logs compared on every input vector",
          "The C01 program families restricted to scalar parameters (all operators and widths at depth 1, truth-table programs, comparison/logic forms, control-flow skeletons up to size 2 (thorough 3) including calls, match, loops and early return) on a path-covering boundary input set; a completed evaluation must equal the JIT's value and log; evaluator panics are allowed and counted per message class so vacuity is visible (about 70% of evaluations complete).",
          "Inputs on which the language leaves the result open are skipped; only scalar-returning functions; evaluator panics in debug builds on overflow are 'stops loudly'."),
+ "C11": ("4/C11",
+         "explicit-state search (BFS with model-state deduplication) over operation histories executed on the real Runtime / Package / TypedFunc objects, with a drop-tracking ledger and code-liveness hooks as oracles",
+         "All sequences up to depth 8 (thorough 11) of {new runtime, compile script version 1|2, get handle, clone handle, call handle, drop handle here or on another thread, drop package, drop runtime} with at most 1 live runtime, 2 live packages and 3 live handles, deduplicated by the reference model's state; every transition is executed on fresh real objects by replaying the representative history. After every step: each call returns the value its version defines, the ledger of live tracked values (script constant, registered constant, value captured by a registered closure) equals what the model says must be alive, machine code was freed for exactly the dead modules (hook H3), nothing is dropped twice; at the end everything is released.",
+         "Equal model keys have equal futures (argued in the evidence); depth bound; two script versions."),
+ "C13": ("4/C13",
+         "exhaustive enumeration of module trees x item placements x reference forms x import placements, compiled in memory and from disk, against a reference resolver written from the documented lookup rules",
+         "All module-tree shapes with <= 3 modules (thorough 4, depth 2), a function, a constant and a record each placed in every subset of the modules with distinct tags, referenced from every module and five nesting positions by 16 path forms, 7 shadowing variants, 6 import kinds x 10 import placements; plus get_function for 22 module paths incl. non-existent ones, in memory and in every on-disk layout (name.roto vs name/mod.roto, distractor files, both present): the compiled call returns exactly the tag the reference resolver designates, or compilation fails exactly when the resolver says the name is not reachable.",
+         "Reference resolver (declarations of the innermost scope, then its imports, then outward; later segments among direct members only) is the oracle; cases the documentation leaves open are counted as unspecified."),
  "C14": ("4/C14",
          "exhaustive enumeration of labelled dependency DAGs of constants and functions (all graphs on n positions x kinds x module placements x reference forms, plus every injected back edge and context read) compiled on the real pipeline with an evaluation-order log oracle",
          "ALL labelled DAGs on n <= 3 declaration positions (n = 4 with one reference form; thorough n = 4 complete, n = 5 restricted) x every node a constant or a function x every placement in pkg / pkg.m x 9 reference forms, the same graphs with every cycle-closing back edge (rejected iff the cycle contains a constant, else accepted recursion) and with a context read reached directly or through functions (rejected iff a constant reaches it): each constant's initialiser is logged exactly once during compile, after all constants it transitively depends on; every getter/function returns the model value afterwards and logs nothing; rejected graphs log nothing.",
